@@ -29,7 +29,7 @@ pub fn run_c02(ctx: &Ctx) {
             |c| crate::l3::run_case(c, crate::l3::Prop::C02),
         );
     }
-    run_l4_part(ctx, crate::l4::Prop::C02, crate::l4::gen::P { pause: 0, inject: 0, panic: 0, stop: 0, busy: 0, uds: false, max_limit: 3, taskpanic: 1, abort: 0, gate: 1 }, ctx.tier.scale(400, 4), &[("saturated-with-waiting", 0.2)], "every worker at its limit with a client still waiting");
+    run_l4_part(ctx, crate::l4::Prop::C02, crate::l4::gen::P { pause: 0, inject: 0, panic: 0, stop: 0, busy: 0, uds: false, max_limit: 3, taskpanic: 1, abort: 0, gate: 1, churn: 0 }, ctx.tier.scale(400, 4), &[("saturated-with-waiting", 0.2)], "every worker at its limit with a client still waiting");
 }
 
 pub fn replay_c02(ctx: &Ctx, v: &Value) -> i32 {
@@ -85,7 +85,12 @@ pub fn run_c03(ctx: &Ctx) {
     run_l2_part(ctx, "l2-with-faults", Prop::C03, P_C03_FAULT, ctx.tier.scale(120_000, 10),
         &[("fault-discovered", 0.4), ("finish-while-saturated-with-backlog", 0.1), ("replace", 0.3)],
         "as above, in histories where a worker died and was replaced (a live worker below its limit must still be used)");
-    run_l4_part(ctx, crate::l4::Prop::C03, crate::l4::gen::P { pause: 0, inject: 0, panic: 0, stop: 0, busy: 0, uds: false, max_limit: 3, taskpanic: 2, abort: 0, gate: 0 }, ctx.tier.scale(400, 4), &[("release-while-saturated", 0.2), ("handler-panic-while-saturated", 0.08)], "a held connection is released while every worker is at its limit and a client waits");
+    run_l4_part(ctx, crate::l4::Prop::C03, crate::l4::gen::P { pause: 0, inject: 0, panic: 0, stop: 0, busy: 0, uds: false, max_limit: 3, taskpanic: 2, abort: 0, gate: 0, churn: 0 }, ctx.tier.scale(400, 4), &[("release-while-saturated", 0.2), ("handler-panic-while-saturated", 0.08)], "a held connection is released while every worker is at its limit and a client waits");
+    {
+        use crate::l4;
+        let rule = format!("{RULE_L4}; runs of 500..3000 connections made one after the other on 1..2 workers with limit 1..2, each closed by the client once greeted, while a second thread sends resume() commands without pause (worker releases and commands race in the accept thread's waker queue); every connection must be greeted within the bound; non-trivial = every case");
+        ctx.run_random(Part::new("l4-churn", &rule, ctx.tier.scale(16, 4)).floors(&[("churn-with-command-chatter", 0.9)]).shards(4).shrink_iters(4), l4::gen::churn_strategy, move |c| l4::run_case(c, l4::Prop::C03));
+    }
 }
 
 pub fn replay_c03(ctx: &Ctx, v: &Value) -> i32 {
@@ -209,6 +214,11 @@ pub fn run_c04(ctx: &Ctx) {
         let rule = format!("{RULE_L4}; here: 2..3 workers, limit 12 (never saturated), 3..10 clients each served before the next connects (hand-over, so call order equals dispatch order): any W consecutive connections are served by W distinct worker threads; non-trivial = the window rule was evaluated");
         ctx.run_random(Part::new("l4", &rule, ctx.tier.scale(300, 4)).floors(&[("round-robin-window-checked", 0.7), ("registered-by-address-list", 0.15)]).shards(8).shrink_iters(8), l4::gen::c04_strategy, |c| l4::run_case(c, l4::Prop::C04));
     }
+    {
+        use crate::l4;
+        let rule = format!("{RULE_L4}; runs of 500..3000 connections made one after the other on 1..2 workers with limit 1..2, each closed by the client once greeted, while a second thread sends resume() commands without pause (worker releases and commands race in the accept thread's waker queue); every connection must be greeted within the bound; non-trivial = every case");
+        ctx.run_random(Part::new("l4-churn", &rule, ctx.tier.scale(16, 4)).floors(&[("churn-with-command-chatter", 0.9)]).shards(4).shrink_iters(4), l4::gen::churn_strategy, move |c| l4::run_case(c, l4::Prop::C04));
+    }
 }
 
 pub fn replay_c04(ctx: &Ctx, v: &Value) -> i32 {
@@ -228,7 +238,7 @@ pub fn run_c05(ctx: &Ctx) {
     run_l2_part(ctx, "l2", Prop::C05, P_C05, ctx.tier.scale(200_000, 10),
         &[("pause", 0.4), ("inject-fatal", 0.2), ("inject-per-connection", 0.2), ("uds", 0.4)],
         "the schedule contains a pause or an injected accept error (fatal or per-connection)");
-    run_l4_part(ctx, crate::l4::Prop::C05, crate::l4::gen::P { pause: 3, inject: 3, panic: 0, stop: 0, busy: 0, uds: true, max_limit: 4, taskpanic: 0, abort: 0, gate: 0 }, ctx.tier.scale(200, 4), &[("pause", 0.3), ("inject", 0.3), ("backoff-under-load", 0.05)], "the script contains a pause or an injected accept error (exercises the real poll_with loop, which the stepped driver duplicates)");
+    run_l4_part(ctx, crate::l4::Prop::C05, crate::l4::gen::P { pause: 3, inject: 3, panic: 0, stop: 0, busy: 0, uds: true, max_limit: 4, taskpanic: 0, abort: 0, gate: 0, churn: 0 }, ctx.tier.scale(200, 4), &[("pause", 0.3), ("inject", 0.3), ("backoff-under-load", 0.05)], "the script contains a pause or an injected accept error (exercises the real poll_with loop, which the stepped driver duplicates)");
 }
 
 pub fn replay_c05(ctx: &Ctx, v: &Value) -> i32 {
@@ -246,7 +256,7 @@ pub fn run_c08(ctx: &Ctx) {
     run_l2_part(ctx, "l2", Prop::C08, P_C08, ctx.tier.scale(200_000, 10),
         &[("fault-discovered", 0.4), ("replace", 0.3), ("late-finish-of-dead-worker", 0.05), ("kill-saturated", 0.03), ("kill-idle", 0.2)],
         "a kill followed by a connect + step that discovers the fault");
-    run_l4_part(ctx, crate::l4::Prop::C08, crate::l4::gen::P { pause: 0, inject: 0, panic: 4, stop: 1, busy: 0, uds: false, max_limit: 2, taskpanic: 1, abort: 0, gate: 2 }, ctx.tier.scale(300, 4), &[("worker-panic", 0.3), ("connects-right-after-fault", 0.15)], "a worker was killed by a panic inside Service::call (guards dropped while unwinding; service instances may take 500 ms to drop; connections that arrive right after the fault must not be discarded while another worker lives)");
+    run_l4_part(ctx, crate::l4::Prop::C08, crate::l4::gen::P { pause: 0, inject: 0, panic: 4, stop: 1, busy: 0, uds: false, max_limit: 2, taskpanic: 1, abort: 0, gate: 2, churn: 0 }, ctx.tier.scale(300, 4), &[("worker-panic", 0.3), ("connects-right-after-fault", 0.15)], "a worker was killed by a panic inside Service::call (guards dropped while unwinding; service instances may take 500 ms to drop; connections that arrive right after the fault must not be discarded while another worker lives)");
     {
         use crate::l4;
         let rule = format!("{RULE_L4}; non-trivial = 17 or more workers were dead before the accept thread noticed the first fault (one burst of fault reports); every one is replaced (one service instantiation per listening socket and fault), and two rounds of connections made one after the other reach every replacement");
@@ -290,8 +300,8 @@ pub fn run_c01(ctx: &Ctx) {
             },
         );
     }
-    run_l4_part(ctx, crate::l4::Prop::C01, crate::l4::gen::P { pause: 1, inject: 0, panic: 0, stop: 0, busy: 0, uds: true, max_limit: 3, taskpanic: 1, abort: 2, gate: 2 }, ctx.tier.scale(300, 4), &[("served-by>=2-workers", 0.2), ("registered-by-address", 0.15), ("registered-by-address-list", 0.15), ("accounting-with-client-resets", 0.1), ("client-reset-in-backlog", 0.05)], "connections were served by at least two worker threads or two listeners exist (each connection is served exactly once by the service of the listener it connected to)");
-    run_l4_part_named(ctx, "l4-faults", crate::l4::Prop::C01, crate::l4::gen::P { pause: 0, inject: 0, panic: 4, stop: 1, busy: 0, uds: false, max_limit: 2, taskpanic: 0, abort: 0, gate: 3 }, ctx.tier.scale(160, 4), &[("worker-panic", 0.2), ("connects-right-after-fault", 0.1)], "a worker was killed by a panic inside Service::call and connections arrived right after it (with two or more workers none of them may be discarded; service instances may take 500 ms to drop while the worker unwinds)");
+    run_l4_part(ctx, crate::l4::Prop::C01, crate::l4::gen::P { pause: 1, inject: 0, panic: 0, stop: 0, busy: 0, uds: true, max_limit: 3, taskpanic: 1, abort: 2, gate: 2, churn: 0 }, ctx.tier.scale(300, 4), &[("served-by>=2-workers", 0.2), ("registered-by-address", 0.15), ("registered-by-address-list", 0.15), ("accounting-with-client-resets", 0.1), ("client-reset-in-backlog", 0.05)], "connections were served by at least two worker threads or two listeners exist (each connection is served exactly once by the service of the listener it connected to)");
+    run_l4_part_named(ctx, "l4-faults", crate::l4::Prop::C01, crate::l4::gen::P { pause: 0, inject: 0, panic: 4, stop: 1, busy: 0, uds: false, max_limit: 2, taskpanic: 0, abort: 0, gate: 3, churn: 0 }, ctx.tier.scale(160, 4), &[("worker-panic", 0.2), ("connects-right-after-fault", 0.1)], "a worker was killed by a panic inside Service::call and connections arrived right after it (with two or more workers none of them may be discarded; service instances may take 500 ms to drop while the worker unwinds)");
 }
 
 pub fn replay_c01(ctx: &Ctx, v: &Value) -> i32 {
@@ -437,7 +447,7 @@ pub fn run_c06(ctx: &Ctx) {
         l3gen::c06_strategy,
         |c| l3::run_case(c, l3::Prop::C06),
     );
-    run_l4_part(ctx, crate::l4::Prop::C06, crate::l4::gen::P { pause: 1, inject: 0, panic: 0, stop: 1, busy: 2, uds: false, max_limit: 3, taskpanic: 1, abort: 0, gate: 1 }, ctx.tier.scale(96, 4), &[("worker-thread-busy", 0.04), ("stop-with-held-connections", 0.25), ("graceful-stop", 0.2), ("forced-stop", 0.2)], "a stop was issued while connections were held open");
+    run_l4_part(ctx, crate::l4::Prop::C06, crate::l4::gen::P { pause: 1, inject: 0, panic: 0, stop: 1, busy: 2, uds: false, max_limit: 3, taskpanic: 1, abort: 0, gate: 1, churn: 0 }, ctx.tier.scale(96, 4), &[("worker-thread-busy", 0.04), ("stop-with-held-connections", 0.25), ("graceful-stop", 0.2), ("forced-stop", 0.2)], "a stop was issued while connections were held open");
     // the accept thread's part: a stop command queued behind other commands is processed (the
     // server joins the accept thread, so a stop it never sees never completes)
     run_l2_part(ctx, "l2-commands", Prop::C06, P_C06, ctx.tier.scale(40_000, 10), &[("stop", 0.25), ("ctl-burst", 0.2)],
